@@ -30,6 +30,8 @@ def classify(case):
 
 
 def run_case(ctx, case):
+    if "a" in case and "b" in case:
+        return run_lockstep(ctx, case)
     spec, columns = case["spec"], case["columns"]
     F = obs.spec_cells(spec)
     f = obs.build(spec)
@@ -73,6 +75,41 @@ def run_case(ctx, case):
         ctx.judge(False, case, mech="C11:operand-changed")
 
 
+def run_lockstep(ctx, case):
+    """two wraps alive at the same time, consumed in lockstep: the method returns a lazy
+    iterator, and each must still produce its own lines"""
+    A, B = case["a"], case["b"]
+    fa, fb = obs.build(A["spec"]), obs.build(B["spec"])
+    wa = cols.reference_wrap(obs.spec_cells(A["spec"]), A["columns"])
+    wb = cols.reference_wrap(obs.spec_cells(B["spec"]), B["columns"])
+    try:
+        ia, ib = fa.width_aware_splitlines(A["columns"]), fb.width_aware_splitlines(B["columns"])
+        ga, gb = [], []
+        done_a = done_b = False
+        while not (done_a and done_b):
+            if not done_a:
+                try:
+                    ga.append(obs.cells(next(ia)))
+                except StopIteration:
+                    done_a = True
+            if not done_b:
+                try:
+                    gb.append(obs.cells(next(ib)))
+                except StopIteration:
+                    done_b = True
+    except obs.ObservationFailed as ex:
+        ctx.judge(False, case, mech="C11:incoherent-result", got=str(ex))
+        return
+    except Exception as ex:  # noqa
+        ctx.judge(False, case, mech="C11:interleaved-wraps", got=repr(ex))
+        return
+    nz = lambda g: [[c for c in l if cols.w(c[0])] for l in g if any(cols.w(c[0]) for c in l)]
+    ok = nz(ga) == wa and nz(gb) == wb
+    ctx.judge(ok, case, ("C11", "lockstep", repr(case)), "C11:interleaved-wraps",
+              [[obs.show(l) for l in wa], [obs.show(l) for l in wb]],
+              [[obs.show(l) for l in ga], [obs.show(l) for l in gb]])
+
+
 def run(ctx):
     ok = cols.agreed(cols.SYMBOLS)
     if ok != cols.SYMBOLS:
@@ -99,3 +136,8 @@ def run(ctx):
         spec = obs.rand_spec(rng, 6, 5, cols.SYMBOLS + ["c", " "], palette=obs.PALETTE)
         run_case(ctx, {"spec": spec, "columns": rng.randint(2, 9)})
         ctx.count("random_layouts")
+    for _ in range(ctx.share(600 if ctx.quick else 40000)):
+        mk = lambda: {"spec": obs.rand_spec(rng, 4, 4, cols.SYMBOLS + ["c"], palette=obs.PALETTE),
+                      "columns": rng.randint(2, 5)}
+        run_lockstep(ctx, {"a": mk(), "b": mk()})
+        ctx.count("lockstep_pairs")
